@@ -74,6 +74,8 @@ def make_pool():
     S = raw.reshape(-1).view(">f8")
     pool[11] = ((B[0:15], B[15:30]), {})
     pool[12] = ((S[0:15], S[15:30]), {})
+    pool[13] = ((Y[0:15], Y[15:30]), {})
+    pool[14] = ((Y[0:15], Y[15:30]), {})
     return pool
 
 
@@ -109,6 +111,13 @@ def functions():
 
 def call_args(ctx, f, p):
     args, kw = ctx["pool"][p]
+    if f == 4 and p in (13, 14):
+        # keyword arguments in different orders: the values read in the
+        # order given coincide (7, True, False), the bindings do not
+        if p == 13:
+            return args, {"samples": 7, "remove_invalid": True,
+                          "ret_idx": False}
+        return args, {"samples": 7, "ret_idx": True, "remove_invalid": False}
     if f == 4:
         return grid_args(p, args), {}
     return args, kw
@@ -221,9 +230,12 @@ def long_sessions(ev, rep, rng, n, length):
             f = rng.choice([1, 2, 3, 4])
             p = rng.choice(list(big_pool)) if rng.random() < 0.8 \
                 else rng.choice([1, 2, 3, 4, 5, 6, 7, 8, 9, 10])
-            args, kw = big_pool[p]
-            if f == 4:
-                args, kw = grid_args(p, args), {}
+            if p in ctx["pool"]:
+                args, kw = call_args(ctx, f, p)
+            else:
+                args, kw = big_pool[p]
+                if f == 4:
+                    args, kw = grid_args(p, args), {}
             if (f, p) not in fresh:
                 fresh[(f, p)] = outcome(
                     ctx["fn"][f][1],
@@ -542,6 +554,15 @@ def main(tier, seed, replay=None):
     scheds_b = sorted({tuple((s["f"], s["p"]) for s in h)
                        for h in res_b.iter_tagged("H", consume=True)}
                       - set(scheds))
+    res_c = tlc.run("MC_Cache", HIST + BASE.format(
+        m=2, kt="TRUE", al="FALSE", d=3).replace(
+            "Funcs <- MCFuncs", "Funcs <- HFuncs").replace(
+            "Pool <- MCPool", "Pool <- HPool3"), workers=8, timeout=3000)
+    ev.add_tlc("MC_Cache schedule enumeration depth 3 (keyword orders)",
+               res_c)
+    scheds_b += sorted({tuple((s["f"], s["p"]) for s in h)
+                        for h in res_c.iter_tagged("H", consume=True)}
+                       - set(scheds) - set(scheds_b))
     if tier != "quick":
         res4 = enum(4)
         ev.add_tlc("MC_Cache schedule enumeration depth 4", res4)
